@@ -376,8 +376,8 @@ class Interp:
             if ty == "variant":
                 return ("variant", self.rawget(v, 1), self.snapshot(self.rawget(v, 2), depth + 1))
             if ty in ("dict", "set"):
-                self.order_dependent = True
-                return (ty, [(self.snapshot(k, depth + 1), self.snapshot(x, depth + 1)) for k, x in v.d.items()])
+                # order-independent abstraction: a set is the collection of its stored elements, a dict the collection of its stored (key, value) tuples
+                return (ty, sorted(repr(self.snapshot(x, depth + 1)) for k, x in v.d.items()))
             return ("table", v.id)
         return ("fn",)
     def lua_error(self, msg=None, *_):
